@@ -113,6 +113,7 @@ func c12Combos(thorough bool) []c12Combo {
 	}
 	for _, xdev := range []bool{false, true} {
 		out = append(out, c12Combo{Name: "front-matter", Input: in["front"], Args: []string{"--front-matter=process", ".a = 5"}, XDev: xdev, Mode: 0o640, Front: true})
+		out = append(out, c12Combo{Name: "front-matter-no-results", Input: in["front"], Args: []string{"--front-matter=process", "select(.nope)"}, XDev: xdev, Mode: 0o640, Front: true})
 		out = append(out, c12Combo{Name: "front-matter-parse-error", Input: in["front"], Args: []string{"--front-matter=process", ".a = ("}, XDev: xdev, Mode: 0o640, Front: true})
 		for _, total := range []int{4095, 4096, 4097, 9000, 3*4096 + 5} {
 			if !thorough && (total == 4095 || total == 4096 || (xdev && total != 9000)) {
